@@ -222,6 +222,22 @@ enum Form {
     LoopVar, // the root is a loop variable of an enclosing macro
     Index,   // r['a']['b']
     Mixed,   // r.a['b'].c
+    DynBound, // r.a.b with every map on the path bound as a dyn value (CelValue::from_dyn); implementation only
+    DynIndex, // r['a']['b'] over the same
+}
+
+/// The same data with every map along the path wrapped as a dyn value.
+fn dynify(v: &CelValue, j: usize, d: usize) -> CelValue {
+    match v {
+        CelValue::Map(m) if j < d => {
+            let mut n = HashMap::new();
+            for (k, x) in m.iter() {
+                n.insert(k.clone(), if k == FIELDS[j] { dynify(x, j + 1, d) } else { x.clone() });
+            }
+            CelValue::from_dyn(std::sync::Arc::new(CelValue::Map(n)))
+        }
+        _ => v.clone(),
+    }
 }
 
 /// Render the path; `root` is the text of the root operand.
@@ -229,7 +245,7 @@ fn path_src(root: &str, d: usize, form: Form) -> String {
     let mut s = root.to_string();
     for (j, f) in FIELDS.iter().enumerate().take(d) {
         let idx = match form {
-            Form::Index => true,
+            Form::Index | Form::DynIndex => true,
             Form::Mixed => j % 2 == 1,
             _ => false,
         };
@@ -335,13 +351,17 @@ fn paths_part(rep: &mut Report, pending: &mut Vec<Pending>, opts: &Opts) {
             let name = cfg_name(&cfg, d);
             rep.bump(&format!("path:depth:{}", d));
             rep.bump(&format!("path:config:{}", name));
-            for form in [Form::Bound, Form::Literal, Form::LoopVar, Form::Index, Form::Mixed] {
-                if d == 0 && matches!(form, Form::Index | Form::Mixed) {
+            for form in [Form::Bound, Form::Literal, Form::LoopVar, Form::Index, Form::Mixed, Form::DynBound, Form::DynIndex] {
+                if d == 0 && matches!(form, Form::Index | Form::Mixed | Form::DynBound | Form::DynIndex) {
+                    continue;
+                }
+                let is_dyn = matches!(form, Form::DynBound | Form::DynIndex);
+                if is_dyn && root.is_none() {
                     continue;
                 }
                 let mut binds = vec![("other".to_string(), CelValue::Int(9))];
                 if let Some(r) = &root {
-                    binds.push(("r".to_string(), r.clone()));
+                    binds.push(("r".to_string(), if is_dyn { dynify(r, 0, d) } else { r.clone() }));
                 }
                 let cx = Ctx { binds, users: users() };
                 // the text of the root operand and an enclosing macro that binds it (LoopVar)
@@ -366,6 +386,7 @@ fn paths_part(rep: &mut Report, pending: &mut Vec<Pending>, opts: &Opts) {
                 // claimed for "intermediate not a map"
                 let idx_nonmap = match (&cfg, form) {
                     (Cfg::NotMapAt(j, _), Form::Index) => Some(*j),
+                    (Cfg::NotMapAt(j, _), Form::DynIndex) => Some(*j),
                     (Cfg::NotMapAt(j, _), Form::Mixed) => Some(*j),
                     _ => None,
                 };
@@ -381,6 +402,9 @@ fn paths_part(rep: &mut Report, pending: &mut Vec<Pending>, opts: &Opts) {
                 rep.bump(&format!("path:form:{:?}", form));
                 if !claimed {
                     rep.bump("path:index on a non-map (type error, not claimed)");
+                    if is_dyn {
+                        continue;
+                    }
                     queue(pending, &prefix(&path), &cx, &base, &format!(" [{}]", tag));
                     let src = prefix(&format!("has({})", path));
                     let out = run_src(&src, &cx);
@@ -401,13 +425,15 @@ fn paths_part(rep: &mut Report, pending: &mut Vec<Pending>, opts: &Opts) {
                 if matches!(cfg, Cfg::RootUnbound) && d == 0 && base.obs != "e:binding" {
                     rep.oracle_fail(&path, &base.obs, "e:binding", "an unbound variable is a Binding failure");
                 }
-                queue(pending, &prefix(&path), &cx, &base, &format!(" [{}]", tag));
+                if !is_dyn {
+                    queue(pending, &prefix(&path), &cx, &base, &format!(" [{}]", tag));
+                }
                 if n_cfg <= 3 {
                     rep.sample(json!({"path": prefix(&path), "config": tag, "impl": base.obs}));
                 }
                 // 2. has(path) in every position
                 let base_in = ExecOut { obs: base.obs.clone(), log: base.log.clone() };
-                check_has(rep, pending, &path, prefix, &want, &base_in, &cx, &tag, true);
+                check_has(rep, pending, &path, prefix, &want, &base_in, &cx, &tag, !is_dyn);
                 // 3. coalesce(path, 'dflt'), coalesce(path, tick(1)): the path value unless null / absent
                 for (alt, alt_obs, alt_log) in [("'dflt'", "s:64666c74", "L:0"), ("tick(41)", "i:41", "L:1 7469636b n l:1 i:41")] {
                     let src = prefix(&format!("coalesce({}, {})", path, alt));
@@ -426,7 +452,9 @@ fn paths_part(rep: &mut Report, pending: &mut Vec<Pending>, opts: &Opts) {
                             "coalesce returns the first argument that is neither null nor absent and evaluates nothing after it",
                         );
                     }
-                    queue(pending, &src, &cx, &out, &format!(" [{}]", tag));
+                    if !is_dyn {
+                        queue(pending, &src, &cx, &out, &format!(" [{}]", tag));
+                    }
                 }
             }
         }
